@@ -284,3 +284,22 @@ V("c17-lower-tail", "C17", "violation", "C17.R3", edits=[(STF, "    upper_bound 
 V("c17-flag-unconditional", "C17", "violation", "C17.R4", edits=[(SF, "        if not self.maneuver_detected:\n            return\n\n        self.flags |= FilterFlag.MANEUVER_DETECTION", "        self.flags |= FilterFlag.MANEUVER_DETECTION\n        if not self.maneuver_detected:\n            return\n")])
 V("c17-detector-gets-cross-cvr", "C17", "violation", "C17.R4", edits=[(SF, "self.maneuver_detection(self.innovation, self.innov_cvr)", "self.maneuver_detection(self.innovation, self.cross_cvr)")])
 V("c17-n-swapped-sides", "C17", "pass", edits=[(STF, "    return metric < upper_bound", "    return upper_bound > metric")])
+
+# ------------------------------------------------------------------------------------ C18
+ADF = "estimation/adaptive/adaptive_filter.py"
+SMF = "estimation/adaptive/smm.py"
+GPF1 = "estimation/adaptive/gpb1.py"
+V("c18-prune-normalisation-removed", "C18", "violation", "C18.R1", edits=[(ADF, "        self.model_weights = self.model_weights / np_sum(self.model_weights)\n        self._compileUpdateStep(observations)", "        self._compileUpdateStep(observations)")])
+V("c18-smm-normalisation-after-mixture", "C18", "violation", "C18.R2", edits=[(SMF, "            # Nastasi, K.N. Dissertation: Section 4.5 Algorithm 4.3 eq 4.11 pg 64\n            self.model_weights = self.model_weights / np_sum(self.model_weights)\n\n        # Compile model data into \"stacked\" estimate & covariances\n        self._compileUpdateStep(observations)\n", "\n        # Compile model data into \"stacked\" estimate & covariances\n        self._compileUpdateStep(observations)\n        if observations:\n            self.model_weights = self.model_weights / np_sum(self.model_weights)\n")])
+V("c18-smm-normalise-by-max", "C18", "violation", "C18.R1", edits=[(SMF, "            # Nastasi, K.N. Dissertation: Section 4.5 Algorithm 4.3 eq 4.11 pg 64\n            self.model_weights = self.model_weights / np_sum(self.model_weights)", "            # Nastasi, K.N. Dissertation: Section 4.5 Algorithm 4.3 eq 4.11 pg 64\n            self.model_weights = self.model_weights / self.model_weights.max()")])
+V("c18-zero-mass-reset-removed", "C18", "violation", "C18.R1", edits=[(SMF, "            if fpe_equals(0.0, np_sum(self.model_weights)):\n                self.model_weights = ones_like(self.model_weights)\n", "")])
+V("c18-gpb1-wrong-normaliser", "C18", "violation", "C18.R1", edits=[(GPF1, "            self.model_weights = (self.model_likelihoods * self.mode_probabilities) / c", "            self.model_weights = (self.model_likelihoods * self.mode_probabilities) / np_sum(self.model_likelihoods)")])
+V("c18-last-model-guard-removed", "C18", "violation", "C18.R3", edits=[(ADF, "            if len(self.models) != 1:\n                self.models.pop(index)", "            if len(self.models) != 0:\n                self.models.pop(index)")])
+V("c18-likelihoods-not-shrunk", "C18", "violation", "C18.R3", edits=[(ADF, "                self.model_likelihoods = delete(self.model_likelihoods, index)\n", "")])
+V("c18-forward-removal", "C18", "violation", "C18.R3", edits=[(ADF, "        for index in reversed(prune_index):", "        for index in prune_index:")])
+V("c18-covariance-about-stale-mean", "C18", "violation", "C18.R4", edits=[(ADF, "        self.pred_x, self.est_x = self.stacking_method(self.models, self.model_weights)\n\n        self.pred_p = zeros((self.x_dim, self.x_dim))\n        self.est_p = zeros((self.x_dim, self.x_dim))\n        for model, weight in zip(self.models, self.model_weights):\n            x_diff_pred = model.pred_x - self.pred_x\n            x_diff_est = model.est_x - self.est_x\n            self.pred_p += weight * (model.pred_p + outer(x_diff_pred, x_diff_pred))\n            self.est_p += weight * (model.est_p + outer(x_diff_est, x_diff_est))\n", "        self.pred_p = zeros((self.x_dim, self.x_dim))\n        self.est_p = zeros((self.x_dim, self.x_dim))\n        for model, weight in zip(self.models, self.model_weights):\n            x_diff_pred = model.pred_x - self.pred_x\n            x_diff_est = model.est_x - self.est_x\n            self.pred_p += weight * (model.pred_p + outer(x_diff_pred, x_diff_pred))\n            self.est_p += weight * (model.est_p + outer(x_diff_est, x_diff_est))\n        self.pred_x, self.est_x = self.stacking_method(self.models, self.model_weights)\n")])
+V("c18-spread-term-dropped", "C18", "violation", "C18.R4", edits=[(ADF, "            self.pred_p += weight * (model.pred_p + outer(x_diff_pred, x_diff_pred))\n            self.est_p += weight * (model.est_p + outer(x_diff_est, x_diff_est))\n\n        if observations:\n            self.true_y", "            self.pred_p += weight * (model.pred_p + outer(x_diff_pred, x_diff_pred))\n            self.est_p += weight * model.est_p\n\n        if observations:\n            self.true_y")])
+V("c18-likelihood-sign", "C18", "violation", "C18.R4", edits=[(GPF1, "self.model_likelihoods[num] = exp(-0.5 * model.nis) / sqrt(", "self.model_likelihoods[num] = exp(0.5 * model.nis) / sqrt(")])
+V("c18-converged-filter-from-prediction", "C18", "violation", "C18.R4", edits=[(ADF, "            est_x=self.est_x,\n            est_p=self.est_p,\n            dynamics=self.dynamics,", "            est_x=self.pred_x,\n            est_p=self.est_p,\n            dynamics=self.dynamics,")])
+V("c18-n-normalise-twice", "C18", "pass", edits=[(ADF, "        self.model_weights = self.model_weights / np_sum(self.model_weights)\n        self._compileUpdateStep(observations)", "        self.model_weights = self.model_weights / np_sum(self.model_weights)\n        self.model_weights = self.model_weights / np_sum(self.model_weights)\n        self._compileUpdateStep(observations)")])
+V("c18-n-inplace-division", "C18", "pass", edits=[(ADF, "        self.model_weights = self.model_weights / np_sum(self.model_weights)\n        self._compileUpdateStep(observations)", "        self.model_weights /= np_sum(self.model_weights)\n        self._compileUpdateStep(observations)")])
